@@ -190,6 +190,13 @@ def _stress(ctx, tbl, known, race, millis, seed, pkg="dnsforward"):
     stats.update({k: rep.get(k) for k in ("queries", "admin_ops", "refused_by_access", "reconfigures", "queries_overlapping_restart_not_judged",
                                           "queries_upstream_timeout_not_judged", "queries_answered_with_block_host", "avoids_reentrant_paths",
                                           "v4_packets", "v6_packets", "admin_mutations", "admin_reads") if rep.get(k) is not None})
+    if rep.get("functional_observations_total"):
+        # dhcpd: outcomes of the static-lease API that differ from its answer (an accepted remove
+        # whose lease is still listed, ...).  Functional behaviour of the lease table, reachable
+        # without any concurrency (notes/fix-drafts/20-dhcpd-v6-rmdynamiclease-skip.msg has the
+        # sequence): not a statement of C05, so recorded in the evidence and not judged.
+        stats["functional_observations_not_judged"] = {"total": rep["functional_observations_total"],
+                                                       "first": (rep.get("functional_observations") or [])[:5]}
     for i, p in enumerate(rep.get("panics") or []):
         frames = re.findall(r"\n(github.com/AdguardTeam/AdGuardHome/internal/\S+)\(", p)
         where = next((f for f in frames if "TestVerifC05" not in f), "?")
